@@ -31,6 +31,24 @@ pub open spec fn concat_all(cs: Seq<Seq<u8>>) -> Seq<u8>
 pub open spec fn effective_limit<C: ServerContext>(rqctx: RequestContext<C>) -> usize {
     match rqctx.endpoint.request_body_max_bytes { Some(x) => x, None => rqctx.server.config.default_request_body_max_bytes }
 }
+/// C10 for the typed body: what the endpoint's declared body type decodes from the bytes, given the request's
+/// Content-Type header -- None: the request must be refused.  (Stated for requests that CARRY a Content-Type; what an
+/// absent header defaults to is not part of C10 and is left open.)
+pub open spec fn typed_body_value<T>(headers: HeaderMap, expected: ApiEndpointBodyContentType, bytes: Seq<u8>) -> Option<T> {
+    let hv = hm_get(headers, "content-type"@);
+    if hv is Some && !hv_is_text(hv->Some_0) { None }                       // unreadable content type
+    else {
+        let text = hv_view(hv->Some_0);
+        match kind_of_mime(media_type(text)) {
+            None => None,                                                   // not one of the supported media types
+            Some(requested) => match (expected, requested) {
+                (ApiEndpointBodyContentType::Json, ApiEndpointBodyContentType::Json) => json_value::<T>(bytes),
+                (ApiEndpointBodyContentType::UrlEncoded, ApiEndpointBodyContentType::UrlEncoded) => urlencoded_value::<T>(bytes),
+                _ => None,                                                  // a content type other than the endpoint's
+            },
+        }
+    }
+}
 /// what a streaming consumer has observed: the chunks yielded so far
 pub open spec fn yielded(out: Seq<Bytes>) -> Seq<Seq<u8>> { out.map_values(|b: Bytes| b.data@) }
 
